@@ -203,7 +203,8 @@ class BuiltinMixin:
             if isinstance(v, VTuple):
                 args = v.items
             else:
-                raise Unsupported("min/max over a sequence")
+                yield from self._minmax_seq(v, st, is_min)
+                return
         vals = self.num_args(args, st)
         real = any(v.sort.kind == "real" for v in vals)
         r = vals[0]
@@ -215,6 +216,44 @@ class BuiltinMixin:
                 a, b = self.as_int(r), self.as_int(v)
                 r = V(INT, z3.If((b < a) if is_min else (b > a), b, a))
         yield r, st
+
+    def _minmax_seq(self, v, st, is_min):
+        """max(list) / min(list) of ints: the result bounds every element and is one of them (witness index);
+        ValueError on an empty list (built-in contract)"""
+        vs = self.as_seq(v, st, "min()/max()")
+        if vs.is_str or vs.elem.kind not in ("int", "bool"):
+            raise Unsupported("min/max over a sequence of non-ints")
+        n = vs.length()
+        for e, s2 in self.guard(st, n > 0, "ValueError", "min()/max() of an empty sequence"):
+            if e is not None:
+                yield e, s2
+                continue
+            facts: list = []
+            arr, ln = seqs.materialize(vs, facts, z3.IntSort())
+            for f in facts:
+                s2.assume(f)
+            m = z3.Int(fresh_name("min" if is_min else "max"))
+            k = z3.Int(fresh_name("mk"))
+            w = z3.Int(fresh_name("mw"))
+            s2.assume(z3.ForAll([k], z3.Implies(z3.And(0 <= k, k < ln), (arr[k] >= m) if is_min else (arr[k] <= m)), patterns=[arr[k]]))
+            s2.assume(z3.And(0 <= w, w < ln, arr[w] == m))
+            yield V(INT, self.from_mathint(m)), s2
+
+    def _anyall(self, args, st, is_any):
+        vs = self.as_seq(args[0], st, "any()/all()")
+        k = z3.Int(fresh_name("aa"))
+        sub = st.copy()
+        sub.assume(z3.And(0 <= k, k < vs.length()))
+        b = self.truthy(self.elem_value(vs, k, sub), sub)
+        facts = list(sub.pc[len(st.pc) + 1:])
+        rng = z3.And(0 <= k, k < vs.length(), *facts)
+        return z3.Exists([k], z3.And(rng, b)) if is_any else z3.ForAll([k], z3.Implies(rng, b))
+
+    def bi_any(self, args, kwargs, st):
+        yield V(BOOL, self._anyall(args, st, True)), st
+
+    def bi_all(self, args, kwargs, st):
+        yield V(BOOL, self._anyall(args, st, False)), st
 
     def bi_min(self, args, kwargs, st):
         yield from self._minmax(args, kwargs, st, True)
@@ -255,7 +294,9 @@ class BuiltinMixin:
         r = seqs.lsum(vs, facts)
         for f in facts:
             if isinstance(f, tuple) and f[0] == "psum_nonneg":
-                st.assume(seqs.psum_nonneg_lemma(f[1], f[2], f[3]))
+                # the non-positive half of the lemma is only instantiated for contracts that ask for it (it slows
+                # unrelated proofs down: Box.get_row went from 1 s to a timeout with it)
+                st.assume(seqs.psum_nonneg_lemma(f[1], f[2], f[3], with_nonpos="psum_nonpos" in getattr(self.contract_stack[0], "lemmas", [])))
             else:
                 st.assume(f)
         return r
